@@ -278,9 +278,14 @@ func (namespaceManager *NamespaceManager) GetPrefixMappingForExpansion(uriExpans
 	return "", errors.New("Could not get prefix for unknown URI expansion: " + uriExpansion)
 }
 
+// GetPrefixToExpansionMap returns a copy: callers iterate and serialise the result while
+// other requests add namespaces
 func (namespaceManager *NamespaceManager) GetPrefixToExpansionMap() (result map[string]string) {
 	namespaceManager.lock.Lock()
-	result = namespaceManager.prefixToExpansionMapping
+	result = make(map[string]string, len(namespaceManager.prefixToExpansionMapping))
+	for prefix, expansion := range namespaceManager.prefixToExpansionMapping {
+		result[prefix] = expansion
+	}
 	namespaceManager.lock.Unlock()
 	return
 }
